@@ -2049,7 +2049,7 @@ def _safe_unparse(n) -> str:
 
 
 def default_then_override(fn_node) -> int:
-    """``v = K`` (a constant) directly followed by ``if c: ...; v = E`` without else, c not reading v: the default moves into
+    """``v = K`` (a constant, or another local the if does not re-bind) directly followed by ``if c: ...; v = E`` without else, c not reading v: the default moves into
     an else branch, so that every branch of the if ends with its own definition of v (the shape flag threading works on)."""
     done = 0
     for node in ast.walk(fn_node):
@@ -2061,11 +2061,13 @@ def default_then_override(fn_node) -> int:
             while i + 1 < len(blk):
                 a, b = blk[i], blk[i + 1]
                 i += 1
-                if not (isinstance(a, ast.Assign) and len(a.targets) == 1 and isinstance(a.targets[0], ast.Name) and isinstance(a.value, ast.Constant)):
+                if not (isinstance(a, ast.Assign) and len(a.targets) == 1 and isinstance(a.targets[0], ast.Name) and isinstance(a.value, (ast.Constant, ast.Name))):
                     continue
                 v = a.targets[0].id
                 if not (isinstance(b, ast.If) and not b.orelse and b.body):
                     continue
+                if isinstance(a.value, ast.Name) and (a.value.id == v or any(isinstance(n, ast.Name) and n.id == a.value.id and not isinstance(n.ctx, ast.Load) for n in ast.walk(b))):
+                    continue  # the default is another local: it must still hold the same value at the end of the if
                 # v is never read inside the if, and every assignment to it there closes its block (possibly in nested ifs)
                 if any(isinstance(n, ast.Name) and n.id == v and isinstance(n.ctx, ast.Load) for n in ast.walk(b)):
                     continue
